@@ -786,8 +786,39 @@ func c03Req(c c03Case) (req *dns.Msg) {
 
 // c03Run runs one case on fresh real objects.
 func c03Run(c c03Case) (o *c03Obs) {
-	o = &c03Obs{}
+	return c03NewStack(c).serve(c)
+}
+
+// c03Stack is one instance of the real stack for the server settings and the
+// database state of a case: profile database, device finder, middleware
+// (with its pool of agd.RequestInfo) and the recording next handler.
+type c03Stack struct {
+	cfg     c03Case
+	st      *c03Storage
+	finder  *c03Finder
+	handler dnsserver.Handler
+
+	// cur is the observation of the request being served.
+	cur *c03Obs
+
+	// lastRI is the agd.RequestInfo the next handler saw last; reused counts
+	// the requests for which it saw the same object again.
+	lastRI *agd.RequestInfo
+	reused int
+}
+
+// c03SameStack reports whether two cases have the same server settings and
+// database state, that is, can be served by the same stack.
+func c03SameStack(a, b c03Case) (ok bool) {
+	return a.Proto == b.Proto && a.Linked == b.Linked && a.Ifaces == b.Ifaces &&
+		fmt.Sprint(a.Domains) == fmt.Sprint(b.Domains) && a.Auth == b.Auth && a.DB == b.DB && a.Auto == b.Auto
+}
+
+// c03NewStack builds the real stack for the settings part of c.
+func c03NewStack(c c03Case) (s *c03Stack) {
+	s = &c03Stack{cfg: c}
 	db, st := c03NewDB(c)
+	s.st = st
 
 	srv := &agd.Server{
 		Name:            "srv",
@@ -809,7 +840,7 @@ func c03Run(c c03Case) (o *c03Obs) {
 		}})
 	}
 
-	finder := &c03Finder{real: devicefinder.NewDefault(&devicefinder.Config{
+	s.finder = &c03Finder{real: devicefinder.NewDefault(&devicefinder.Config{
 		Logger:        slogutil.NewDiscardLogger(),
 		ProfileDB:     db,
 		HumanIDParser: agd.NewHumanIDParser(),
@@ -825,7 +856,7 @@ func c03Run(c c03Case) (o *c03Obs) {
 		Server:           srv,
 		StructuredErrors: agdtest.NewSDEConfig(true),
 		AccessManager:    c03Access,
-		DeviceFinder:     finder,
+		DeviceFinder:     s.finder,
 		ErrColl:          c03ErrColl,
 		GeoIP:            c03GeoIP,
 		Metrics:          ratelimitmw.EmptyMetrics{},
@@ -835,12 +866,17 @@ func c03Run(c c03Case) (o *c03Obs) {
 	})
 
 	next := dnsserver.HandlerFunc(func(ctx context.Context, _ dnsserver.ResponseWriter, _ *dns.Msg) (err error) {
+		o := s.cur
 		o.NextCalls++
 		ri, ok := agd.RequestInfoFromContext(ctx)
 		if !ok {
 			return nil
 		}
 		o.NextHasRI = true
+		if ri == s.lastRI {
+			s.reused++
+		}
+		s.lastRI = ri
 		if p, d := ri.DeviceData(); p != nil || d != nil {
 			if p != nil {
 				o.NextProf = string(p.ID)
@@ -852,6 +888,21 @@ func c03Run(c c03Case) (o *c03Obs) {
 
 		return nil
 	})
+	s.handler = mw.Wrap(next)
+
+	return s
+}
+
+// serve sends the request part of c through the stack and returns what was
+// observed for this request only.
+func (s *c03Stack) serve(c c03Case) (o *c03Obs) {
+	if !c03SameStack(s.cfg, c) {
+		vrt.Fatalf("request %s does not belong to the stack of %s", c03Describe(c), c03Describe(s.cfg))
+	}
+	o = &c03Obs{}
+	s.cur = o
+	s.finder.calls, s.finder.res = 0, nil
+	createdBefore := len(s.st.created)
 
 	sri := &dnsserver.RequestInfo{StartTime: time.Now(), TLSServerName: c.SNI}
 	if c.Path != "" {
@@ -872,13 +923,13 @@ func c03Run(c c03Case) (o *c03Obs) {
 	req := c03Req(c)
 
 	var err error
-	o.Panic = vrt.Catch(func() { err = mw.Wrap(next).ServeDNS(ctx, rw, req) })
+	o.Panic = vrt.Catch(func() { err = s.handler.ServeDNS(ctx, rw, req) })
 	if err != nil {
 		o.MwErr = err.Error()
 	}
-	o.Created = st.created
-	o.FindCalls = finder.calls
-	switch res := finder.res.(type) {
+	o.Created = append([]c03Created(nil), s.st.created[createdBefore:]...)
+	o.FindCalls = s.finder.calls
+	switch res := s.finder.res.(type) {
 	case nil:
 		o.Kind = "anon"
 	case *agd.DeviceResultOK:
